@@ -298,6 +298,37 @@ func c09Drain(c *c09Case, rr parquet.RowReader, limit int) ([]c09Row, [][2]int, 
 }
 
 // run one case on the real library, returns the emitted rows
+// fact probe: do the cut lookups of merge_refine.go refuse pages that hold some nulls
+// (proposed_fixes/C09_cut_lookups_nulls.diff)? The mirror of the planner takes it as a parameter.
+var c09StrictCuts = sync.OnceValue(func() string {
+	cols := []c09Col{{Opt: true}}
+	schema := c09Schema(cols)
+	mk := func(inp int32, lo, n, nulls int) []c09Row {
+		var rows []c09Row
+		for i := 0; i < n; i++ {
+			rows = append(rows, c09Row{K: [3]int64{int64(lo + i)}, Inp: inp, Seq: int32(i)})
+		}
+		for i := 0; i < nulls; i++ {
+			rows = append(rows, c09Row{Null: [3]bool{true}, Inp: inp, Seq: int32(n + i)})
+		}
+		return rows
+	}
+	c := &c09Case{Cols: cols, PageBuf: 256}
+	a, err1 := c09RowGroup(c, schema, mk(0, 3544, 2237, 44), false)
+	b, err2 := c09RowGroup(c, schema, mk(1, 43, 1736, 38), true)
+	if err1 != nil || err2 != nil {
+		return "0"
+	}
+	m, err := parquet.MergeRowGroups([]parquet.RowGroup{a, b}, schema)
+	if err != nil {
+		return "0"
+	}
+	if parquet.VerifMergeKind(m) == "merged" {
+		return "1"
+	}
+	return "0"
+})
+
 // page statistics of the sorting columns of a row group, in the format of the driver's merge.plan
 func c09TargetText(rg parquet.RowGroup, ncols int) (string, bool) {
 	var sb strings.Builder
@@ -389,7 +420,7 @@ func c09Run(c *c09Case) (out []c09Row, kind string, calls [][2]int, plan string,
 			if len(parts) > 0 {
 				ts = strings.Join(parts, "/")
 			}
-			c.planReq = "merge.plan " + c09SpecText(c.Cols[:c.sortCols()]) + " " + ts
+			c.planReq = "merge.plan " + c09StrictCuts() + " " + c09SpecText(c.Cols[:c.sortCols()]) + " " + ts
 		}
 	}
 	if c.Path == "readers" {
@@ -526,6 +557,9 @@ func c09Oracle(c *c09Case, out []c09Row) (key, what string) {
 			if nullInvolved && c.Pattern == "fixed" {
 				return "nullable-key-ranges-ignore-nulls", fmt.Sprintf("output not sorted: row %d (%s) precedes row %d (%s); a null key is out of place (F12: row-group key ranges computed from non-null page bounds only)", i-1, out[i-1].keyText(n), i, out[i].keyText(n))
 			}
+			if nullInvolved && c.Path != "readers" && !c.Dedupe && len(out) >= parquet.VerifMinStreamedRegionRows && c09StrictCuts() == "0" {
+				return "nullable-key-cuts-ignore-nulls", fmt.Sprintf("output not sorted: row %d (%s) precedes row %d (%s); a null key is out of place (refinement cuts computed from the non-null bounds of a page that also holds nulls)", i-1, out[i-1].keyText(n), i, out[i].keyText(n))
+			}
 			if nullInvolved {
 				return "unsorted-null-out-of-place", fmt.Sprintf("output not sorted: row %d (%s) precedes row %d (%s); a null key is out of place", i-1, out[i-1].keyText(n), i, out[i].keyText(n))
 			}
@@ -642,7 +676,7 @@ func c09Check(ctx *core.Ctx, c *c09Case, p *c09Pending) {
 		return
 	}
 	if key, what := c09Oracle(c, out); key != "" {
-		if key != "nullable-key-ranges-ignore-nulls" {
+		if key != "nullable-key-ranges-ignore-nulls" && key != "nullable-key-cuts-ignore-nulls" {
 			key += sig + " plan=" + kind
 		}
 		ctx.Fail("L1", key, what, detail())
